@@ -191,7 +191,17 @@ def emit():
     w("pub static TYPES: &[TypeRow] = &[")
     index = {}
     idx = 0
+    amount_idx = None
+    AMOUNT_ROW = [
+        "    TypeRow { name: \"AmountT\", krate: \"catalogue\", path: \"quantities::AmountT\", feature: None, kind: Kind::Amount, derived: None,",
+        "        units: &[UnitRow { id: \"One\", name: \"One\", konst: \"ONE\", variant: \"One\", symbol: \"\", prefix: None, is_ref: true, scale: Some((\"1\", \"1\")), exact: true, decl: 0 }] },",
+    ]
     for cr, t, cfg in all_types:
+        if cr != "catalogue" and amount_idx is None:
+            amount_idx = idx
+            idx += 1
+            for l in AMOUNT_ROW:
+                w(l)
         index[(cr, t["name"])] = idx
         idx += 1
         d = t.get("derived")
@@ -214,10 +224,6 @@ def emit():
                 "true" if u["exact"] else "false", u["decl"]))
         w("        ],")
         w("    },")
-    # the dimensionless amount
-    amount_idx = idx
-    w("    TypeRow { name: \"AmountT\", krate: \"catalogue\", path: \"quantities::AmountT\", feature: None, kind: Kind::Amount, derived: None,")
-    w("        units: &[UnitRow { id: \"One\", name: \"One\", konst: \"ONE\", variant: \"One\", symbol: \"\", prefix: None, is_ref: true, scale: Some((\"1\", \"1\")), exact: true, decl: 0 }] },")
     w("];")
     w("")
     w("pub const AMOUNT_TYPE: usize = %d;" % amount_idx)
@@ -225,7 +231,11 @@ def emit():
     # dyn types
     w("pub fn build_types() -> Vec<Option<DynType>> {")
     w("    let mut v: Vec<Option<DynType>> = Vec::new();")
+    pushed_amount = False
     for cr, t, cfg in all_types:
+        if cr != "catalogue" and not pushed_amount:
+            w("    v.push(Some(dyn_amount_type!(%d)));" % amount_idx)
+            pushed_amount = True
         consts = ", ".join("%s::%s" % (t["module"], u["const"]) for u in t["units"])
         mac = {"ref": "dyn_ref_type", "noref": "dyn_noref_type", "single": "dyn_single_type"}[t["kind"]]
         i = index[(cr, t["name"])]
@@ -236,7 +246,6 @@ def emit():
             w("    v.push(None);")
         else:
             w("    v.push(Some(%s!(%d, %s, [%s])));" % (mac, i, type_path(t), consts))
-    w("    v.push(Some(dyn_amount_type!(%d)));" % amount_idx)
     w("    v")
     w("}")
     w("")
